@@ -8,6 +8,8 @@ import (
 	"go.mongodb.org/mongo-driver/bson"
 	"go.mongodb.org/mongo-driver/mongo/options"
 
+	"github.com/256dpi/lungo"
+
 	"verif/internal/par"
 	"verif/internal/refmodel"
 	"verif/internal/world"
@@ -181,7 +183,7 @@ func init() {
 			}
 		}
 		triples := len(projs) - singles - pairs
-		var evals, inDomain, errorsBoth, overlapping, mutationChecks, listFinds int64
+		var evals, inDomain, errorsBoth, overlapping, mutationChecks, listFinds, writeProjections int64
 		outcomes := map[string]bool{}
 		par.For(len(projs), r.TooMany, func(pi int) {
 			ents := projs[pi]
@@ -274,6 +276,61 @@ func init() {
 						_ = outcomes
 					}
 				}
+				// (vi) the same projection on the result of a find-one-and-modify call: what comes back is the projection of the
+				// version asked for, and the projecting never reaches the stored document - observed where the write itself does
+				// not hide it: in a session transaction that is aborted afterwards, and through a cursor opened before the call
+				if singles[di] != "" && len(ents) <= 2 {
+					early, eerr := coll.Find(w.Ctx, bD())
+					marked := append(append(bson.D{}, doc...), bson.E{Key: "zz", Value: int32(1)})
+					rp := map[string]interface{}{"document": J(doc), "projection": J(proj), "part": "find-one-and-modify"}
+					for _, kind := range []string{"FindOneAndDelete", "FindOneAndUpdate:before", "FindOneAndUpdate:after", "FindOneAndReplace:before"} {
+						sess, serr := w.Client.StartSession()
+						if serr != nil || sess.StartTransaction() != nil {
+							r.Broken("session: %v", serr)
+							break
+						}
+						var got bson.D
+						var err error
+						_ = lungo.WithSession(w.Ctx, sess, func(sc lungo.ISessionContext) error {
+							switch kind {
+							case "FindOneAndDelete":
+								err = coll.FindOneAndDelete(sc, bD(), options.FindOneAndDelete().SetProjection(proj)).Decode(&got)
+							case "FindOneAndUpdate:before":
+								err = coll.FindOneAndUpdate(sc, bD(), bD("$set", bD("zz", int32(1))), options.FindOneAndUpdate().SetProjection(proj)).Decode(&got)
+							case "FindOneAndUpdate:after":
+								err = coll.FindOneAndUpdate(sc, bD(), bD("$set", bD("zz", int32(1))), options.FindOneAndUpdate().SetProjection(proj).SetReturnDocument(options.After)).Decode(&got)
+							default:
+								err = coll.FindOneAndReplace(sc, bD(), marked[1:], options.FindOneAndReplace().SetProjection(proj)).Decode(&got)
+							}
+							return nil
+						})
+						_ = sess.AbortTransaction(w.Ctx)
+						sess.EndSession(w.Ctx)
+						atomic.AddInt64(&writeProjections, 1)
+						label := fmt.Sprintf("%s with projection %s on %s", kind, J(proj), short(J(doc), 260))
+						if err != nil {
+							r.Violation("write-projection-rejected:"+kind+":"+c14Shape(ents), label+": failed ("+err.Error()+") although FindOne accepts the projection", rp)
+						} else if kind == "FindOneAndUpdate:after" {
+							if msg := c14Within(got, marked, "", windowed); msg != "" {
+								r.Violation("write-projection-result:"+kind+":"+c14Shape(ents), label+": returned "+J(got)+": "+msg, rp)
+							}
+						} else if J(canonSorted(got)) != singles[di] {
+							r.Violation("write-projection-result:"+kind+":"+c14Shape(ents), label+": returned "+J(got)+", FindOne with the same projection returns "+singles[di], rp)
+						}
+						if after := w.DumpAll(); after != before {
+							var now bson.D
+							_ = coll.FindOne(w.Ctx, bD()).Decode(&now)
+							r.Violation("stored-document-altered:"+kind+":"+c14Shape(ents), label+" inside a transaction that was aborted: the stored document is now "+J(now), rp)
+							before = after
+						}
+					}
+					if eerr == nil {
+						var seen []bson.D
+						if err := early.All(w.Ctx, &seen); err != nil || len(seen) != 1 || J(seen[0]) != J(doc) {
+							r.Violation("earlier-cursor-altered:"+c14Shape(ents), fmt.Sprintf("a cursor opened before find-one-and-modify calls with projection %s returns %s (err %v), the document was %s", J(proj), J(seen), err, J(doc)), rp)
+						}
+					}
+				}
 				w.Close()
 			}
 			// the same projection over all documents in one Find: every result equals the single-document result
@@ -324,10 +381,11 @@ func init() {
 		r.Set("rejected_by_both", errorsBoth)
 		r.Set("stored_document_checks", mutationChecks)
 		r.Set("multi_document_finds", listFinds)
+		r.Set("find_one_and_modify_projections", writeProjections)
 		r.Set("distinct_nontrivial", inDomain)
 		r.Set("exhaustive", !r.TooMany())
 		r.Set("samples", []interface{}{map[string]interface{}{"documents": J(docs)}, map[string]interface{}{"paths": paths}, map[string]interface{}{"flags": J(bson.A(c14Flags(1)))}})
-		r.Set("rule", "every projection of 1 entry (9 paths x 50 flags: numeric/boolean/invalid flags, $slice counts and [skip,limit] pairs incl. negative and out-of-range, $elemMatch conditions), every ordered pair of entries with distinct paths over an 8-flag core and every ordered triple over a 4-flag core (incl. overlapping paths such as a with a.b) on each of 7 documents through FindOne with SetProjection: (i) mixing inclusion and exclusion or a malformed flag is rejected, (ii) every value in the result is the stored value at its path (arrays under $slice/$elemMatch must be windows of the stored array), (iii) the result equals the reference projection when no path is a prefix of another, (iv) the byte dump of the whole database is unchanged after every call, (v) one Find over all documents returns for each document what its single-document projection returns; projections of several entries are executed 8 times each")
+		r.Set("rule", "every projection of 1 entry (9 paths x 50 flags: numeric/boolean/invalid flags, $slice counts and [skip,limit] pairs incl. negative and out-of-range, $elemMatch conditions), every ordered pair of entries with distinct paths over an 8-flag core and every ordered triple over a 4-flag core (incl. overlapping paths such as a with a.b) on each of 7 documents through FindOne with SetProjection: (i) mixing inclusion and exclusion or a malformed flag is rejected, (ii) every value in the result is the stored value at its path (arrays under $slice/$elemMatch must be windows of the stored array), (iii) the result equals the reference projection when no path is a prefix of another, (iv) the byte dump of the whole database is unchanged after every call, (v) one Find over all documents returns for each document what its single-document projection returns; projections of several entries are executed 8 times each; (vi) for projections of one or two entries: FindOneAndDelete, FindOneAndUpdate (both versions) and FindOneAndReplace with the projection inside a session transaction that is aborted return the projection FindOne returns, leave the byte dump unchanged, and a cursor opened before them still returns the original document")
 		r.Assume("lungo merges projection entries through a Go map: 8 repetitions per multi-entry projection is repetition, not enumeration, of that one dimension", "overlapping paths (a path that is a prefix of another) are accepted by lungo and rejected by MongoDB; they are checked by (ii) and (iv) only")
 		if inDomain < 5000 {
 			r.Broken("vacuity: only %d results compared with the reference", inDomain)
